@@ -28,7 +28,7 @@ func main() {
 		fmt.Fprintln(os.Stderr, err)
 		os.Exit(2)
 	}
-	rng := lib.NewRng(f.Seed)
+	rng := lib.NewRng(f.Seed*1000003 + 17) // lib's streams for consecutive seeds are one step apart
 	cf := lib.NewCaseFile("C03", f.Seed, f.Tier)
 	cf.Imports = []string{"Rel"}
 	cf.CaseType = "rel_case"
@@ -36,9 +36,14 @@ func main() {
 	cf.Side.Rule = "grouping queries (GROUP BY 0-3 key expressions incl. NULL keys, 0-4 aggregates count/sum/avg/min/max/array_agg with and " +
 		"without DISTINCT, keys selected or not, outer WHERE over a grouping subquery, grouping under DISTINCT / ORDER BY / WITH) over 1-2 " +
 		"generated CSV/JSON tables (0..8 rows, NULL-heavy, duplicates, ints at the int64 limits so that sums wrap), run through the built CLI " +
-		"with -o json; non-trivial = at least one output row; distinct by full case text."
+		"with -o json; select items with a fresh alias, without alias (generated names), with an alias repeating another column's alias or " +
+		"generated name; TRIGGER COUNTING 1|2|3 / ON END OF STREAM on about a third of the grouping selects (observed through a top-level " +
+		"ORDER BY, i.e. the OrderSensitiveTransform consolidating retractions, and again through -o stream_native and -o batch_table); " +
+		"the Coq pipeline model has no triggers and no name generation: for those cases the column names come from the generator's copy of the " +
+		"parser's naming rule and the check is the relational oracle (den_top) on the printed rows; " +
+		"non-trivial = at least one output row; distinct by full case text."
 	n := f.Cases(300, 3000)
-	cases, err := relq.Generate(rng, n, relq.Profile{GroupBias: 9, MaxDepth: 1, AllowErrors: true}, bin, home, work)
+	cases, err := relq.Generate(rng, n, relq.Profile{GroupBias: 9, MaxDepth: 1, AllowErrors: true, AliasShapes: true, AllowTriple: true, TriggerBias: 2, SimpleEvery: 3}, bin, home, work)
 	if err != nil {
 		fmt.Fprintln(os.Stderr, err)
 		os.Exit(2)
@@ -58,22 +63,35 @@ func main() {
 			}
 		}
 	}
-	jobs := 0
-	diffs := make([]string, len(cases))
-	relq.Parallel(len(cases), 8, func(i int) {
-		if i%6 == 0 {
-			diffs[i] = relq.CrossCheck(cases[i], bin, home, "noopt")
-		}
-	})
-	for i := range cases {
-		if i%6 == 0 {
-			jobs++
-			if diffs[i] != "" {
-				cf.Violation(i, diffs[i], "")
+	// TRIGGER cases: the retraction stream of -o stream_native must consolidate to the rows, and the table printer
+	// (which consolidates on its own) must show them; every 6th other case runs with the optimizer off
+	type job struct {
+		i    int
+		mode string
+	}
+	var jobs []job
+	for i, c := range cases {
+		if len(c.G.Triggers) > 0 {
+			jobs = append(jobs, job{i, "native_consolidated"})
+			if i%2 == 0 {
+				jobs = append(jobs, job{i, "batch_table"})
 			}
+		} else if i%6 == 0 {
+			jobs = append(jobs, job{i, "noopt"})
 		}
 	}
-	cf.Side.Distribution["crosscheck_noopt"] = jobs
+	diffs := make([]string, len(jobs))
+	relq.Parallel(len(jobs), 8, func(k int) { diffs[k] = relq.CrossCheck(cases[jobs[k].i], bin, home, jobs[k].mode) })
+	for k, j := range jobs {
+		cf.Count("crosscheck_" + j.mode)
+		if diffs[k] != "" {
+			class := ""
+			if cases[j.i].G.TripleName {
+				class = "c03-triple-name"
+			}
+			cf.Violation(j.i, diffs[k], class)
+		}
+	}
 	os.RemoveAll(filepath.Join(work, "home"))
 	if err := cf.Write(f.Out); err != nil {
 		fmt.Fprintln(os.Stderr, err)
